@@ -76,7 +76,14 @@ def lock_panics(ctx, rule, prog, inv, exceptions):
                     bad.append((fn2, s))
         # sites covered by a C14 exception (reason valid for any model) do not count
         assign_keys(prog, [s for _, s in bad], "c14.panic")
-        bad = [(f, s) for (f, s) in bad if not exc_lookup(exceptions, sanitize(s["key"]))]
+        import re as _re
+        mv_ = getattr(ctx, "moved_excepted", set())
+        bad = [(f, s) for (f, s) in bad if not exc_lookup(exceptions, sanitize(s["key"])) and _re.sub(r"\|\d+$", "", sanitize(s["key"])) not in mv_]
+        und_ = {_re.sub(r"\|\d+$", "", k_) for k_ in getattr(ctx, "undecided_keys", set())}
+        if bad and all(_re.sub(r"\|\d+$", "", sanitize(s["key"])) in und_ for _, s in bad):
+            # every such site is one the site inventory could not tell from a moved excepted site: the lock rule cannot decide either
+            ctx.undecided.append("%s: %d may-panic site(s) inside the lock region of %s are undecided (moved code)" % (key, len(bad), r["static"].split("::")[-1]))
+            continue
         if bad:
             f, s = bad[0]
             ctx.violation(rule, key, "%d unguarded may-panic sites reachable while %s is locked (e.g. `%s` on %s at %s): a panic there poisons the mutex and every later "
